@@ -37,10 +37,46 @@ pub struct GetRec {
     pub head: bool,
 }
 
+/// Parks the next `park` backend puts whose path starts with `prefix` until released: the scheduler
+/// of the GC-race scenarios (a writer is held right before its pointer switch).
+#[derive(Debug)]
+pub struct Gate {
+    pub prefix: String,
+    pub park: std::sync::atomic::AtomicUsize,
+    pub entered: tokio::sync::Semaphore,
+    pub release: tokio::sync::Semaphore,
+}
+
+impl Gate {
+    pub fn new(prefix: &str, park: usize) -> Arc<Gate> {
+        Arc::new(Gate { prefix: prefix.to_string(), park: std::sync::atomic::AtomicUsize::new(park),
+            entered: tokio::sync::Semaphore::new(0), release: tokio::sync::Semaphore::new(0) })
+    }
+    async fn check(&self, path: &str) {
+        use std::sync::atomic::Ordering;
+        if !path.starts_with(&self.prefix) {
+            return;
+        }
+        let mut cur = self.park.load(Ordering::SeqCst);
+        loop {
+            if cur == 0 {
+                return;
+            }
+            match self.park.compare_exchange(cur, cur - 1, Ordering::SeqCst, Ordering::SeqCst) {
+                Ok(_) => break,
+                Err(x) => cur = x,
+            }
+        }
+        self.entered.add_permits(1);
+        self.release.acquire().await.unwrap().forget();
+    }
+}
+
 #[derive(Default, Debug)]
 pub struct RecState {
     pub muts: Mutex<Vec<Mut>>,
     pub gets: Mutex<Vec<GetRec>>,
+    pub gate: Mutex<Option<Arc<Gate>>>,
 }
 
 impl RecState {
@@ -53,7 +89,7 @@ impl RecState {
 }
 
 /// Records every backend mutation that succeeded (with its bytes) and every read request.
-#[derive(Debug)]
+#[derive(Debug, Clone)]
 pub struct Rec {
     pub inner: Arc<dyn ObjectStore>,
     pub st: Arc<RecState>,
@@ -77,6 +113,10 @@ fn payload_bytes(p: &PutPayload) -> Bytes {
 impl ObjectStore for Rec {
     async fn put_opts(&self, location: &Path, payload: PutPayload, opts: PutOptions) -> Result<PutResult> {
         let data = payload_bytes(&payload);
+        let gate = self.st.gate.lock().unwrap().clone();
+        if let Some(g) = gate {
+            g.check(location.as_ref()).await;
+        }
         let r = self.inner.put_opts(location, payload, opts).await?;
         self.st.muts.lock().unwrap().push(Mut::Put { path: location.to_string(), data });
         Ok(r)
@@ -184,6 +224,7 @@ impl Kind {
     }
 }
 
+#[derive(Clone)]
 pub enum W {
     Meta(MetaStore<Rec>),
     Enc(EncryptedStore<Rec>),
